@@ -142,13 +142,20 @@ C20Problems(ev) ==
 
 \* Known deviation NlaOrderDependence: exactly the recorded family (one-unknown implicit equation + implicit equation sharing the
 \* unknown with an initialised variable); one listing order gives the expected type, the other "overconstrained"; nothing else is wrong.
-Dev(d, ev) ==
+\* Known deviation DiffOfExpression: an ODE written as the derivative of an expression, d(x + 0)/dt = ..., is not reported as
+\* unsupported; the analyser makes x an algebraic unknown of an NLA equation and the model is no ODE model any more.
+DevDiff(d, ev) ==
+    /\ d = "DiffOfExpression" /\ Mode = "C03" /\ ev.e = "system" /\ DiffOfSum(ev.sys)
+    /\ ev.variants[1].type \in {"dae", "nla"} /\ ev.variants[1].analyserErrors = 0
+    /\ \E i \in DOMAIN ev.variants[1].vars : ev.variants[1].vars[i].name = ev.sys.fault.name /\ ev.variants[1].vars[i].type = "algebraic"
+DevNla(d, ev) ==
     /\ d = "NlaOrderDependence" /\ Mode = "C05" /\ ev.sys.nla = "mixed"
     /\ "classification changes with the order / names of components, variables or equations" \in C05Problems(ev)
     /\ C05Problems(ev) \subseteq {"classification changes with the order / names of components, variables or equations",
                                    "equation types, state / rate dependence or dependencies change with the order / names of components, variables or equations"}
     /\ \A i \in DOMAIN ev.variants : ev.variants[i].type \in {ExpectedType(ev.sys), "overconstrained"}
     /\ ev.variants[1].type = ExpectedType(ev.sys)
+Dev(d, ev) == DevDiff(d, ev) \/ DevNla(d, ev)
 Problems(ev) == CASE Mode = "C05" -> C05Problems(ev) [] Mode = "C03" -> C03Problems(ev) [] Mode = "C17" -> C17Problems(ev) [] Mode = "C20" -> C20Problems(ev)
 Next == /\ l <= Len(TraceLog) /\ l' = l + 1
         /\ LET ev == TraceLog[l] IN
